@@ -53,6 +53,19 @@ def bounded(tier, seed):
             viol.append({"clause": "no_raise", "input": {"text": s, "options": {k: str(x) for k, x in o.items()}}, "got": repr(e)[:200]})
         finally:
             signal.alarm(0)
+    # degenerate documents: well-formed output on every option set
+    for doc in ("---", "---\ntitle: never closed\nkey: value", "---\n", "\n\n---\nk: v", "---\n---", "---\na: b\n---", "x", "#", ">", "|", "```", "[^a]:",
+                "- [ ]", "1.", "<!--", "{%", "\\", "***", "  ", "\t", "\r", "a\r\nb"):
+        for o in (dict(width=88), dict(width=0, semantic=True), dict(width=1, smartquotes=True, ellipses=True, cleanups=True), dict(width=-5)):
+            try:
+                out = P.fmt(doc, **o)
+                evals += 1
+                if doc.strip():
+                    for v in P.well_formed(doc, o, out):
+                        v["input"] = {"text": doc, "options": {k: str(x) for k, x in o.items()}}
+                        viol.append(v)
+            except Exception as e:
+                viol.append({"clause": "no_raise", "input": {"text": doc, "options": {k: str(x) for k, x in o.items()}}, "got": repr(e)[:200]})
     # code blocks: blank lines carry no added trailing spaces
     for doc in ("> ```\n> a\n>\n> b\n> ```\n", "- ```\n  a\n\n  b\n  ```\n", "1. > ~~~\n   > x\n   >\n   > y\n   > ~~~\n"):
         out = P.fmt(doc, width=88)
@@ -88,7 +101,7 @@ def bounded(tier, seed):
             "samples": [{"soup": "".join(rnd.choice(SOUP) for _ in range(20))}],
             "rule": "seeded Unicode soup (unbalanced delimiters, control characters, CR/LF mixes, NUL, U+2028, look-alikes of the internal placeholder tokens) of length 3-120 x "
                     "seeded option sets incl. widths -1/0/1/88/10^6 under a 10 s watchdog: returns, ends in a newline (Markdown "
-                    "mode), introduces no NUL; code-block blank lines carry no trailing spaces; thorough: pumped families with a "
+                    "mode), introduces no NUL; 22 degenerate documents (unclosed / empty frontmatter, lone delimiters) x 4 option sets likewise; code-block blank lines carry no trailing spaces; thorough: pumped families with a "
                     "fitted growth exponent; distinct = distinct outputs",
             "exhaustive": False, "bound": "%d strings" % n}
 
@@ -112,8 +125,7 @@ def _quote_doubling():
 
 
 def witnesses():
-    return {"C12-empty-output": P.fmt("-\t\r\n", width=88) == "",
-            "C12-marko-deep-nesting-recursion": _raises_recursion(),
+    return {"C12-marko-deep-nesting-recursion": _raises_recursion(),
             "C12-marko-nested-quote-exponential": _quote_doubling()}
 
 
